@@ -33,6 +33,9 @@ var regRenderers = []regRenderer{
 	{"left-aligned", []string{"--no-color", "reg", "--internal-template-name", "left-aligned"}, "left-aligned"},
 	{"old", []string{"--no-color", "reg", "--use-old-reg-reporter"}, "default"},
 	{"default-in-colour", []string{"reg"}, "default"}, // the plain invocation: escape codes are removed before parsing
+	// --group-food qualifies --single-element; on its own it selects nothing else than the register (should a tree
+	// reject the lone flag with an error, that is not C02's business: only a successful run is compared)
+	{"group-food-without-single-element", []string{"--no-color", "reg", "-g"}, "default"},
 }
 
 // parseSummary parses `summary` output into days whose Totals carry only Pos.
@@ -148,6 +151,10 @@ func checkC02(w *Worker) {
 		x.Obs(r.Key())
 		x.Sample(map[string]interface{}{"cmd": c.shell(), "stdout": r.Stdout})
 		rep := map[string]interface{}{"cmd": c.shell(), "book": book.String(), "log": lg.String(), "observed": r.String()}
+		if r.Failed && r.Panic == "" && rd.Name == "group-food-without-single-element" {
+			x.Case("skip: the lone flag is rejected", false)
+			return
+		}
 		if r.Failed || r.Panic != "" {
 			x.Violate("C02|"+rd.Name+"|failed", fmt.Sprintf("`%s` failed: %s", c.shell(), r.String()), rep)
 			return
